@@ -275,6 +275,8 @@ def run_hist_prop(prop, tier, salt, n_quick, n_thorough, families=gen.SCENARIOS,
     for i, c in enumerate(cases):
         if not str(c.get('seed', '')).startswith('corpus:') and (prop == 'C07' or i % 4 == 0):
             c['spell'] = core.seed() * 7919 + i
+        if not str(c.get('seed', '')).startswith('corpus:') and (prop == 'C07' or i % 4 == 1):
+            c['callee_mutates'] = True     # the functions edit their (copied) arguments in place
     explore(prop, tier, rep, cases)
     if unit_problems and not rep.violations:
         # a unit-level model and the code disagree and the histories exhibit no failing input
@@ -408,6 +410,17 @@ def c15_cases(tier, ds):
     out = []
     classes = ['truncate:0', 'truncate:5', 'truncate:20', 'truncate:1000000', 'bitflip:3', 'bitflip:40', 'bitflip:97',
                'nongzip', 'gzip_nonjson', 'wrong_shape', 'other_software', 'no_software', 'newer_version', 'empty']
+    # JSON of the wrong shape: a field of the document or of an operation holds a value of the wrong type
+    for name in ('createdDirs', 'funcVersions', 'operationVersions', 'rootOperations', 'buildName'):
+        for val in ('null', '7', 'true', '[7]', '"x"', '{"a": 1}'):
+            if (name, val) in (('createdDirs', '"x"'), ('buildName', '"x"'), ('funcVersions', '{"a": 1}'), ('operationVersions', '{"a": 1}')):
+                continue      # these are well-shaped (another build's cache, or a string read as a list of characters)
+            classes.append('field:%s=%s' % (name, val))
+    for name in ('filename', 'suboperations', 'kwargs', 'args', 'funcName', 'type', 'fileComparison'):
+        for val in ('null', '7', '[7]'):
+            if (name, val) == ('args', '[7]'):
+                continue
+            classes.append('opfield:%s=%s' % (name, val))
     for i in range(budget(tier, 120, 4000)):
         rng = random.Random(core.seed() * 91 + 15 * 1000003 + i)
         c = gen.gen_case(rng.randrange(10 ** 9), dirsize=ds, p_fail=0.0, p_clean=0.0, min_builds=1, max_builds=2)
